@@ -23,11 +23,11 @@ run_demo() {
   if [ -f "$demo" ]; then
     cp $demo $wt/$demodir/zz_demo${N}_test.go
     tests=$(grep -oE '^func (Test[A-Za-z0-9_]+)' $demo | sed 's/func //' | paste -sd'|')
-    (cd $wt/$demodir && timeout 300 go test -vet=off -count=1 -timeout 240s -run "^($tests)\$" . ) > /tmp/intake_demo.txt 2>&1; rc=$?
+    (cd $wt/$demodir && timeout 400 go test ${RACE:-} -vet=off -count=1 -timeout 300s -run "^($tests)\$" . ) > /tmp/intake_${P}_demo.txt 2>&1; rc=$?
     rm -f $wt/$demodir/zz_demo${N}_test.go
   else
     mkdir -p $wt/cmd/zz_demo$N && cp -r $demo/* $wt/cmd/zz_demo$N/
-    (cd $wt && timeout 300 go run ./cmd/zz_demo$N ) > /tmp/intake_demo.txt 2>&1; rc=$?
+    (cd $wt && timeout 300 go run ./cmd/zz_demo$N ) > /tmp/intake_${P}_demo.txt 2>&1; rc=$?
     rm -rf $wt/cmd/zz_demo$N
   fi
   return $rc
@@ -39,14 +39,14 @@ echo "== with change"
 git apply $diff || { echo "patch does not apply"; exit 3; }
 nontest=$(git diff --name-only | grep -v '_test.go' | grep -v '^gen/' | wc -l)
 testedit=$(git diff --name-only | grep -c '_test.go')
-go build ./... > /tmp/intake_build.txt 2>&1; rc_build=$?
+go build ./... > /tmp/intake_${P}_build.txt 2>&1; rc_build=$?
 suite_ok=0
 for try in 1 2; do
-  if timeout 400 go test -vet=off -count=1 -timeout 180s ./... > /tmp/intake_suite.txt 2>&1; then suite_ok=1; break; fi
+  if timeout 400 go test -vet=off -count=1 -timeout 180s ./... > /tmp/intake_${P}_suite.txt 2>&1; then suite_ok=1; break; fi
 done
 run_demo; rc_mut=$?
 echo "   build rc=$rc_build suite_ok=$suite_ok demo rc=$rc_mut (non-test files changed: $nontest, test files edited: $testedit)"
-tail -5 /tmp/intake_demo.txt | cut -c1-200
+tail -5 /tmp/intake_${P}_demo.txt | cut -c1-200
 git checkout -q -- . ; git clean -qfd -e _out
 verdict=REJECT
 if [ $rc_clean -eq 0 ] && [ $rc_build -eq 0 ] && [ $suite_ok -eq 1 ] && [ $rc_mut -ne 0 ] && [ $testedit -eq 0 ] && [ $nontest -ge 1 ]; then verdict=CONFIRMED; fi
